@@ -118,6 +118,14 @@ def run_column(col, adds, doccount, storage="ram", prefix=b"", show=None, reads=
                 extra["iter"] = list(r) if reads is None else None
             except Exception as e:  # noqa
                 extra["iter"] = e
+            try:
+                if reads is None:
+                    ld = r.load()
+                    extra["load"] = [ld[d] for d in range(doccount)]
+                else:
+                    extra["load"] = None
+            except Exception as e:  # noqa
+                extra["load"] = e
             return ("ok", raw, rows, extra)
         finally:
             try:
@@ -385,9 +393,13 @@ def gen_api_case(rng, tier):
         if rng.random() < 0.6:
             doc["t"] = rng.choice(TEXTS)
             if rng.random() < 0.25:
-                doc["_stored_t"] = rng.choice(TEXTS + [u"override"])
+                doc["_stored_t"] = rng.choice(TEXTS + [u"override", None])
+        elif rng.random() < 0.1:
+            doc["_stored_t"] = u"override without a value"          # ignored: the field itself is absent
         if rng.random() < 0.5:
             doc["k"] = rng.choice(TEXTS[1:])
+            if rng.random() < 0.15:
+                doc["_stored_k"] = rng.choice(TEXTS[1:] + [None])  # not a stored field: only the column sees it
         if rng.random() < 0.5:
             doc["kr"] = rng.choice(TEXTS[1:6])
         if rng.random() < 0.4:
@@ -426,28 +438,47 @@ def api_case_json(c):
 API_COLUMNS = ["t", "k", "kr", "k4", "kp", "dt", "nf", "nd", "kw"] + sorted(INT_FIELDS)
 
 
+STORED_FLAGS = {"id": True, "st": True, "t": True, "k": False, "kr": True, "k4": False, "kp": False, "dt": True,
+                "nf": False, "nd": False, "kw": True}
+STORED_FLAGS.update({name: bits == 16 for name, (bits, signed) in INT_FIELDS.items()})
+
+
+def custom_value(doc, f):
+    """`customval` of `SegmentWriter.add_document` (None when the field itself is not supplied)."""
+    if doc.get(f) is None:
+        return None
+    return doc.get("_stored_" + f, doc.get(f))
+
+
+def sdict_line(i, doc):
+    """`c08 sdict`: the model's stored dict of one document (fields in sorted name order)."""
+    full = dict(doc)
+    full["id"] = u"%d" % i
+    items = []
+    for f in sorted(k for k in full if not k.startswith("_")):
+        v = full.get(f)
+        has_o = ("_stored_" + f) in full
+        o = full.get("_stored_" + f)
+        items.append("(%s %s %s %d)" % (f, "-" if v is None else atom(v),
+                                        "-" if not has_o else ("None" if o is None else atom(o)),
+                                        1 if STORED_FLAGS[f] else 0))
+    return "c08 sdict (%s)" % " ".join(items)
+
+
 def api_expected_lines(c):
-    """One `c08 rows` request per column (values as opaque atoms keyed by original doc index), plus
-    one for the stored dicts."""
-    import math
+    """One `c08 rows` request per column (values as opaque atoms keyed by original doc index), then
+    one `c08 sdict` per document (the model's stored dict)."""
     lines = []
     n = len(c["docs"])
     for col in API_COLUMNS:
         adds = []
         for i, doc in enumerate(c["docs"]):
-            v = doc.get("_stored_" + col, doc.get(col))
+            v = custom_value(doc, col)
             if v is not None:
                 adds.append((i, v))
         lines.append("c08 rows %s %d %s" % (atom(api_default(c, col)), n, adds_sexp(adds, atom)))
-    adds = []
     for i, doc in enumerate(c["docs"]):
-        sf = {"id": u"%d" % i}
-        for f in ("st", "t", "kr", "dt", "kw", "n16", "u16"):
-            v = doc.get("_stored_" + f, doc.get(f))
-            if v is not None:
-                sf[f] = v
-        adds.append((i, sf))
-    lines.append("c08 rows %s %d %s" % (atom({}), n, adds_sexp(adds, stored_atom)))
+        lines.append(sdict_line(i, doc))
     return lines
 
 
@@ -548,9 +579,15 @@ def _compare_api(c, r, speclines, bad, stats):
     if sorted(orig.values()) != live:
         bad("reader.stored_fields:doc-set", live, sorted(orig.values()), "documents lost or duplicated")
         return
-    rows = [parse_sexp(l)[0] for l in speclines]
-    # stored fields
-    exp_stored = rows[-1]
+    rows = [parse_sexp(l)[0] for l in speclines[:len(API_COLUMNS)]]
+    # stored fields: the model's `storedDict` of every document
+    exp_stored = []
+    for l in speclines[len(API_COLUMNS):]:
+        body, _, flag = l.partition(" ")
+        if flag != "(model 1)":
+            bad("model:storedDict-vs-specStored", "(model 1)", l[:200], "Lean storedDict and specStored disagree")
+            return
+        exp_stored.append(body if body != "{}" else atom({}))
     for dn, o in sorted(orig.items()):
         sf = r.stored_fields(dn)
         got = stored_atom(sf)
@@ -594,3 +631,127 @@ def _compare_api(c, r, speclines, bad, stats):
                     "column %s of document id=%d (docnum %d, %d segments)" % (col, o, dn, stats["segments"]))
                 break
         stats["columns"] = stats.get("columns", 0) + 1
+
+
+# ------------------------------------------------------------------------------------------------
+# segments: MultiColumnReader over segments with and without the column file, then the column copy
+# of a merge (`SegmentWriter.write_per_doc`) — against the model's `multiGet` / `mergeColumnAdds`
+
+SEG_KINDS = ["var", "ref", "num", "fixed"]
+
+
+def seg_field(kind):
+    from whoosh import fields, columns
+    if kind == "var":
+        return fields.ID(sortable=True), u""
+    if kind == "ref":
+        return fields.ID(sortable=columns.RefBytesColumn()), u""
+    if kind == "fixed":
+        return fields.ID(sortable=columns.FixedBytesColumn(4)), u"\x00\x00\x00\x00"
+    return fields.NUMERIC(int, bits=16, signed=True, sortable=True, default=-3), -3
+
+
+def gen_seg_case(rng, tier):
+    kind = rng.choice(SEG_KINDS)
+    nseg = rng.choice([1, 2, 2, 3, 3, 4])
+    segs = []
+    for _ in range(nseg):
+        n = rng.choice([1, 1, 2, 3, 5])
+        mode = rng.choice(["none", "some", "some", "all"])
+        docs = []
+        for _ in range(n):
+            has = mode == "all" or (mode == "some" and rng.random() < 0.5)
+            if not has:
+                docs.append(None)
+            elif kind == "num":
+                docs.append(rng.choice([0, -3, 7, 32767, -32768, rng.randint(-500, 500)]))
+            elif kind == "fixed":
+                docs.append(rng.choice(FOURS))
+            else:
+                docs.append(rng.choice(TEXTS[1:]))
+        segs.append(docs)
+    total = sum(len(s) for s in segs)
+    deletes = sorted(rng.sample(range(total), rng.choice([0, 0, 1, 2, total]) % (total + 1)))
+    return {"kind": kind, "segs": segs, "deletes": deletes,
+            "storage": rng.choice(["ram", "ram", "file", "file-nommap"])}
+
+
+def seg_line(c, hascols):
+    _, default = seg_field(c["kind"])
+    parts, g = [], 0
+    dels = set(c["deletes"])
+    for docs, hc in zip(c["segs"], hascols):
+        adds = [(i, v) for i, v in enumerate(docs) if v is not None]
+        live = [i for i in range(len(docs)) if (g + i) not in dels]
+        parts.append("(%d %d %s %s)" % (1 if hc else 0, len(docs), adds_sexp(adds, atom), lst(str(i) for i in live)))
+        g += len(docs)
+    return "c08 segs %s (%s)" % (atom(default), " ".join(parts))
+
+
+def run_seg_case(c):
+    """Worker: index the segments through the public API; returns (hascols, multi rows, merged rows)
+    or an error string."""
+    import warnings
+    warnings.simplefilter("ignore")
+    from whoosh import fields
+    from whoosh.filedb.filestore import RamStorage, FileStorage
+    tmpdir = tempfile.mkdtemp(prefix="wverif-C08-")
+    saved_tmp = tempfile.tempdir
+    tempfile.tempdir = tmpdir
+    try:
+        fld, _ = seg_field(c["kind"])
+        schema = fields.Schema(id=fields.ID(stored=True, unique=True), k=fld)
+        if c["storage"] == "ram":
+            st = RamStorage()
+        else:
+            st = FileStorage(os.path.join(tmpdir, "ix"), supports_mmap=(c["storage"] != "file-nommap")).create()
+        ix = st.create_index(schema, indexname="c08s%d_%d" % (os.getpid(), next(_COUNTER)))
+        g = 0
+        for docs in c["segs"]:
+            w = ix.writer()
+            for v in docs:
+                if v is None:
+                    w.add_document(id=u"%d" % g)
+                else:
+                    w.add_document(id=u"%d" % g, k=v)
+                g += 1
+            w.commit(merge=False)
+        r = ix.reader()
+        try:
+            leaves = [lr for lr, _ in r.leaf_readers()]
+            hascols = [bool(lr.has_column("k")) for lr in leaves]
+            counts = [lr.doc_count_all() for lr in leaves]
+            cr = r.column_reader("k")
+            multi = []
+            for d in range(r.doc_count_all()):
+                try:
+                    multi.append(atom(cr[d]))
+                except Exception as e:  # noqa
+                    multi.append("!" + type(e).__name__)
+        finally:
+            r.close()
+        if counts != [len(s) for s in c["segs"]]:
+            return "segment sizes %r" % (counts,)
+        w = ix.writer()
+        for d in c["deletes"]:
+            w.delete_by_term("id", u"%d" % d)
+        w.commit(optimize=True)
+        r = ix.reader()
+        try:
+            merged = []
+            if r.doc_count_all():
+                cr = r.column_reader("k")
+                for d in range(r.doc_count_all()):
+                    try:
+                        merged.append(atom(cr[d]))
+                    except Exception as e:  # noqa
+                        merged.append("!" + type(e).__name__)
+            ids = [r.stored_fields(d)["id"] for d in range(r.doc_count_all())]
+        finally:
+            r.close()
+        return hascols, multi, merged, ids
+    except Exception as e:  # noqa
+        return "%s: %s" % (type(e).__name__, str(e)[:200])
+    finally:
+        tempfile.tempdir = saved_tmp
+        shutil.rmtree(tmpdir, ignore_errors=True)
